@@ -55,6 +55,9 @@ type referenceTracker struct {
 	// updates that are being processed
 	updates ModelUpdates
 
+	// updates resulting from reference processing so far
+	referenceUpdates ModelUpdates
+
 	// references are the updated references by the set of updates processed
 	references database.References
 
@@ -93,7 +96,7 @@ func (rt *referenceTracker) processReferences(updates ModelUpdates) (ModelUpdate
 }
 
 func (rt *referenceTracker) processReferencesLoop(updates ModelUpdates) (ModelUpdates, error) {
-	referenceUpdates := ModelUpdates{}
+	rt.referenceUpdates = ModelUpdates{}
 
 	// references can be transitive and deleting them can lead to further
 	// references having to be removed so loop until there are no updates to be
@@ -124,13 +127,13 @@ func (rt *referenceTracker) processReferencesLoop(updates ModelUpdates) (ModelUp
 		}
 
 		// merge updates from this iteration to the overall reference updates
-		err = referenceUpdates.Merge(rt.dbModel, updates)
+		err = rt.referenceUpdates.Merge(rt.dbModel, updates)
 		if err != nil {
 			return ModelUpdates{}, err
 		}
 	}
 
-	return referenceUpdates, nil
+	return rt.referenceUpdates, nil
 }
 
 // processModelUpdates keeps track of the updated references by a set of updates
@@ -543,8 +546,13 @@ func (rt *referenceTracker) getModel(table, uuid string) (model.Model, error) {
 		// model has been deleted
 		return nil, nil
 	}
-	// look for the model in the updates
-	model := rt.updates.GetModel(table, uuid)
+	// look for the model in the updates, first in those made by previous
+	// rounds of reference processing as they apply on top of the others
+	model := rt.referenceUpdates.GetModel(table, uuid)
+	if model != nil {
+		return model, nil
+	}
+	model = rt.updates.GetModel(table, uuid)
 	if model != nil {
 		return model, nil
 	}
@@ -562,8 +570,13 @@ func (rt *referenceTracker) getRow(table, uuid string) (*ovsdb.Row, error) {
 		// row has been deleted
 		return nil, nil
 	}
-	// look for the row in the updates
-	row := rt.updates.GetRow(table, uuid)
+	// look for the row in the updates, first in those made by previous rounds
+	// of reference processing as they apply on top of the others
+	row := rt.referenceUpdates.GetRow(table, uuid)
+	if row != nil {
+		return row, nil
+	}
+	row = rt.updates.GetRow(table, uuid)
 	if row != nil {
 		return row, nil
 	}
